@@ -54,6 +54,7 @@ func main() {
 	write("Glue.lean", genGlue())
 	write("ConfigLocks.lean", genConfigLocks())
 	write("FmtCmd.lean", genFmtCmd())
+	write("Resume.lean", genResume())
 
 	// typed scan, cached by content hash of the scanned sources
 	h := hashTree(repo)
@@ -2432,4 +2433,84 @@ func genFmtCmd() string {
 		"    or holds its result (those variables renamed v0, v1, … in order of first appearance) and every os.WriteFile /\n" +
 		"    fmt.Print* call that mentions one of them or calls Format in place -/\n" +
 		"def cmdFmtDataFlow : List String := " + leanStrList(rows) + "\n" + footer
+}
+
+// ---------------------------------------------------------------- C14: where `caddy run --resume` looks
+
+// genResume reads off cmd/commandfuncs.go cmdRun and cmd/main.go loadEnvFromFile how the reader of
+// the autosave file finds it: every os.ReadFile of cmdRun names the package variable
+// caddy.ConfigAutosavePath itself (not a copy), nothing in cmdRun mentions that variable above
+// the call of handleEnvFileFlag, and loadEnvFromFile assigns the variable after its last os.Setenv.
+func genResume() string {
+	_, f := parseFile("cmd/commandfuncs.go")
+	fd := findFunc(f, "", "cmdRun")
+	var readArgs []string
+	usesBefore, readsBefore, envCalls := 0, 0, 0
+	if fd != nil && fd.Body != nil {
+		envPos := token.NoPos
+		ast.Inspect(fd.Body, func(n ast.Node) bool {
+			if ce, ok := n.(*ast.CallExpr); ok && exprText(ce.Fun) == "handleEnvFileFlag" {
+				envCalls++
+				if envPos == token.NoPos {
+					envPos = ce.Pos()
+				}
+			}
+			return true
+		})
+		ast.Inspect(fd.Body, func(n ast.Node) bool {
+			switch t := n.(type) {
+			case *ast.SelectorExpr:
+				if exprText(t) == "caddy.ConfigAutosavePath" && (envPos == token.NoPos || t.Pos() < envPos) {
+					usesBefore++
+				}
+			case *ast.CallExpr:
+				if exprText(t.Fun) == "os.ReadFile" && len(t.Args) == 1 {
+					readArgs = append(readArgs, exprText(t.Args[0]))
+					if envPos == token.NoPos || t.Pos() < envPos {
+						readsBefore++
+					}
+				}
+			}
+			return true
+		})
+	}
+	_, m := parseFile("cmd/main.go")
+	ld := findFunc(m, "", "loadEnvFromFile")
+	recompute := false
+	if ld != nil && ld.Body != nil {
+		lastSetenv, assign := token.NoPos, token.NoPos
+		ast.Inspect(ld.Body, func(n ast.Node) bool {
+			switch t := n.(type) {
+			case *ast.CallExpr:
+				if exprText(t.Fun) == "os.Setenv" {
+					lastSetenv = t.Pos()
+				}
+			case *ast.AssignStmt:
+				for i, l := range t.Lhs {
+					if exprText(l) == "caddy.ConfigAutosavePath" && i < len(t.Rhs) && strings.Contains(exprText(t.Rhs[i]), "caddy.AppConfigDir()") {
+						assign = t.Pos()
+					}
+				}
+			}
+			return true
+		})
+		recompute = lastSetenv != token.NoPos && assign != token.NoPos && assign > lastSetenv
+	}
+	b := func(x bool) string {
+		if x {
+			return "true"
+		}
+		return "false"
+	}
+	return header +
+		"/-- the arguments of the `os.ReadFile` calls of `cmdRun` (cmd/commandfuncs.go), in source order -/\n" +
+		"def cmdRunReadFileArgs : List String := " + leanStrList(readArgs) + "\n\n" +
+		"/-- how often `cmdRun` calls `handleEnvFileFlag` -/\n" +
+		"def cmdRunEnvFileCalls : Nat := " + strconv.Itoa(envCalls) + "\n\n" +
+		"/-- mentions of `caddy.ConfigAutosavePath` in `cmdRun` above its (first) `handleEnvFileFlag` call -/\n" +
+		"def cmdRunAutosavePathUsesBeforeEnvFile : Nat := " + strconv.Itoa(usesBefore) + "\n\n" +
+		"/-- `os.ReadFile` calls of `cmdRun` above its `handleEnvFileFlag` call -/\n" +
+		"def cmdRunReadsBeforeEnvFile : Nat := " + strconv.Itoa(readsBefore) + "\n\n" +
+		"/-- `loadEnvFromFile` (cmd/main.go) assigns `caddy.ConfigAutosavePath` from `caddy.AppConfigDir()` below its last `os.Setenv` -/\n" +
+		"def loadEnvFromFileRecomputesAutosavePath : Bool := " + b(recompute) + "\n" + footer
 }
